@@ -98,7 +98,7 @@ func genC02(rng *rand.Rand, tier string) *C02Plan {
 				op.Cond = genCond(rng, 2)
 			}
 		case "advance":
-			op.Secs = []int{1, 2, 10, 61, 3601, 86400 * 4}[rng.IntN(6)]
+			op.Secs = []int{1, 2, 5, 10, 60, 61, 3600, 3601, 86400 * 4}[rng.IntN(9)]
 		}
 		p.Ops = append(p.Ops, op)
 	}
@@ -139,9 +139,11 @@ func (s *c02State) write(key string, seed int, wrapped bool) (record.Record, *mr
 
 // compareGet checks one key against the model.
 func (s *c02State) compareGet(key, when string) bool {
+	before := nowUnix()
 	r, err := s.iface.Get(dbName + ":" + key)
 	m := s.model[key]
 	now := nowUnix()
+	exact := before == now // the clock's second did not change during the call: no tolerance at the expiry second
 	if m.visible(now) {
 		if err != nil {
 			s.rc.Fail("C02.get-missing", "get did not return a record that is stored, not deleted and not expired"+s.cfgNote()+s.bypassNote(), fmt.Sprintf("%s: key %q: %v (model %+v now=%d)", when, key, err, *m, now))
@@ -164,8 +166,9 @@ func (s *c02State) compareGet(key, when string) bool {
 		}
 		return true
 	}
-	// lenient: a record whose expiry second is the current second may go either way
-	if m != nil && m.Deleted == 0 && m.Expires > 0 && m.Expires >= now-2 && m.Expires <= now+2 {
+	// lenient: a record whose expiry second is the current second may go either way - but only if the
+	// second changed while the call was in progress
+	if !exact && m != nil && m.Deleted == 0 && m.Expires > 0 && m.Expires >= now-2 && m.Expires <= now+2 {
 		return true
 	}
 	if err == nil {
@@ -518,7 +521,7 @@ func execC02(p *C02Plan, rc *simkit.RunCtx) {
 			for k := range before {
 				if !after[k] {
 					m := s.model[k]
-					if m.visible(nowUnix()) && !(m.Expires > 0 && m.Expires <= nowUnix()+1) {
+					if m.visible(nowUnix()) && (nowUnix() == now || !(m.Expires > 0 && m.Expires <= nowUnix()+1)) {
 						rc.Fail("C02.maintain-removed-live", "maintenance physically removed a record that is neither deleted nor expired", fmt.Sprintf("%s: key %q", when, k))
 						return
 					}
